@@ -31,10 +31,11 @@ Driver ops for the substring meta searcher and the public `memmem` API
       (needle(), printed as hex):
       `ok <results> allocs=<model allocation count> steps=<n>`; steps of the operations only.
   finderrevops <cfg> <hex needle> <ops>
-  finderopsal <cfg> <pf> <off> <hex needle> <ops> / finderrevopsal <cfg> <off> <hex needle> <ops>
-     as above; the implementation borrows the needle from offset <off> of the first haystack
       the same op machine for `FinderRev::new(needle)`: `f:<hex hay>` is `rfind`, `i:<hex hay>`
       is `rfind_iter(hay)` run to exhaustion; `r`, `o`, `k`, `n` as above; same answer format.
+  finderopsal <cfg> <pf> <off> <hex needle> <ops> / finderrevopsal <cfg> <off> <hex needle> <ops>
+      the same two machines; the implementation borrows the needle from offset <off> of the
+      first haystack buffer of the program (aliasing is invisible to the model)
 
 `<cfg>` is `avx2|sse2|fallback|neon|simd128`: the vector support of the build/CPU
 (x86_64 with AVX2 detected; x86_64 with AVX2 forced unavailable; x86_64 with SSE2 and AVX2
